@@ -10,27 +10,111 @@ library `AmqModel/Lemmas/Conn.lean`).
 namespace AmqModel.Props.C08
 open AmqModel.Conn AmqModel.Collector
 
-/-- CLIENT CLOSE: the Connection.Close buffer handed over by `Connection::close` is appended to the
-    outbound data and writes are sealed in the same step. -/
+/- Statement before fix D17 (false for the model since: the close request first takes what the
+   channels have queued):
+
 theorem client_close_seals (c : Conn) (n : Nat) (buf : Bytes) (hs : c.sealed = false) :
-    processChannelMessage c n (.connectionClose buf) = ({ c with out := c.out ++ buf, sealed := true }, none) := by
-  unfold processChannelMessage
-  dsimp only
-  rw [pushOut_of_not_sealed hs]
+    processChannelMessage c n (.connectionClose buf) = ({ c with out := c.out ++ buf, sealed := true }, none)
+
+counterexample:
+  c := { Conn.init 4 4 with slots := [(1, { lid := 1 })],
+         links := [(0, { chan := 0 }), (1, { chan := 1, fifo := [.send [7]] })] },  n := 0,  buf := [9]:
+  the result's `out` is [7, 9] (not [9]) and link 1's queue has been emptied. -/
+
+/-- CLIENT CLOSE: when the I/O thread takes the Connection.Close buffer handed over by
+    `Connection::close`, it first takes everything the open channels have queued
+    (`takeAllQueued`, ascending channel ids; fix D17); then the Close buffer is appended to the
+    outbound data and writes are sealed in the same step. -/
+theorem client_close_seals (c : Conn) (n : Nat) (buf : Bytes) (c1 : Conn)
+    (hq : takeAllQueued c ((c.slots.map (·.1)).mergeSort (· ≤ ·)) = (c1, none)) :
+    processChannelMessage c n (.connectionClose buf) = (sealOut (pushOut c1 buf), none) := by
+  rw [processChannelMessage_close, hq]
+
+/-- … in record form, when taking the queues left writes open. -/
+theorem client_close_seals_record (c : Conn) (n : Nat) (buf : Bytes) (c1 : Conn)
+    (hq : takeAllQueued c ((c.slots.map (·.1)).mergeSort (· ≤ ·)) = (c1, none)) (hs : c1.sealed = false) :
+    processChannelMessage c n (.connectionClose buf) = ({ c1 with out := c1.out ++ buf, sealed := true }, none) := by
+  rw [client_close_seals c n buf c1 hq, pushOut_of_not_sealed hs]
   rfl
 
-/-- SEALED ABSORBS: once sealed, nothing a client submits and nothing the I/O thread pushes is
-    appended any more. -/
+/-- The buffer of a submitted `.send` (nothing for the other requests). -/
+def sendBytes : Msg → Bytes
+  | .send b => b
+  | _ => []
+
+/-- The bytes channel `n` has queued, in submission order. -/
+def queuedOn (c : Conn) (n : Nat) : Bytes :=
+  match lookupN n c.slots with
+  | some slot => ((getLink c slot.lid).fifo.map sendBytes).flatten
+  | none => []
+
+/-- The bytes all open channels have queued: ascending channel ids, each queue in FIFO order. -/
+def queuedAll (c : Conn) : Bytes :=
+  (((c.slots.map (·.1)).mergeSort (· ≤ ·)).map (queuedOn c)).flatten
+
+/-- The three definitions above are the ones the lemma file works with. -/
+theorem queuedAll_eq : queuedAll = Conn.queuedAll := by
+  have e1 : sendBytes = Conn.Msg.sendBytes := by funext m; cases m <;> rfl
+  have e2 : queuedOn = Conn.queuedOn := by
+    funext c n; unfold queuedOn Conn.queuedOn; rw [e1]
+    cases lookupN n c.slots <;> rfl
+  funext c; unfold queuedAll Conn.queuedAll; rw [e2]
+
+/-- NOTHING ACCEPTED BEFORE THE CLOSE IS DISCARDED (fix D17).  Writes open, the open channels
+    have distinct ids and distinct queues, and what waits in their queues are `.send` buffers
+    (whatever their number, on however many channels, polled or not): the outbound data becomes
+    the old data, then every queued buffer — channels in ascending id order, each queue in
+    submission order — then the Close buffer; writes are sealed; no error; every channel's queue is
+    empty afterwards. -/
+theorem client_close_writes_queued_first (c : Conn) (n : Nat) (buf : Bytes) (hs : c.sealed = false)
+    (hkeys : (c.slots.map (·.1)).Nodup) (hlid : (c.slots.map (·.2.lid)).Nodup)
+    (hsend : ∀ p ∈ c.slots, ∀ m ∈ (getLink c p.2.lid).fifo, ∃ b, m = .send b) :
+    let r := processChannelMessage c n (.connectionClose buf)
+    r.2 = none ∧ r.1.out = c.out ++ queuedAll c ++ buf ∧ r.1.sealed = true ∧
+    ∀ p ∈ c.slots, (getLink r.1 p.2.lid).fifo = [] := by
+  rw [queuedAll_eq]
+  exact close_writes_queued_first c n buf hs hkeys hlid hsend
+
+/-- Non-vacuity, and the counterexample to the old statement: one channel with one queued buffer. -/
+example :
+    let c : Conn := { (Conn.init 4 4) with slots := [(1, { lid := 1 })], links := [(0, { chan := 0 }), (1, { chan := 1, fifo := [.send [7]] })] }
+    let r := processChannelMessage c 0 (.connectionClose [9])
+    r.2 = none ∧ r.1.out = [7, 9] ∧ r.1.sealed = true ∧ (getLink r.1 1).fifo = [] ∧ queuedAll c = [7] := by
+  simp [Conn.init, lookupN, getLink, popFifo, setLink, setN, processChannelMessage, takeAllQueued,
+    takeQueued, processPlainMessage, pushOut, sealOut, queuedAll, queuedOn, sendBytes]
+
+/-- Two channels, stored in descending order, two and one queued buffers: ascending ids, FIFO order. -/
+example :
+    let c : Conn := { (Conn.init 4 4) with slots := [(2, { lid := 5 }), (1, { lid := 3 })], links := [(0, { chan := 0 }), (3, { chan := 1, fifo := [.send [1], .send [2]] }), (5, { chan := 2, fifo := [.send [3]] })] }
+    (processChannelMessage c 0 (.connectionClose [9])).1.out = [1, 2, 3, 9] := by
+  simp [Conn.init, lookupN, getLink, popFifo, setLink, setN, processChannelMessage, takeAllQueued,
+    takeQueued, processPlainMessage, List.mergeSort, pushOut, sealOut,
+    List.MergeSort.Internal.splitInTwo]
+
+/- Statement before fix D17 (third conjunct false for the model since: the close request first
+   takes what the channels have queued):
+
 theorem sealed_absorbs (c : Conn) (n : Nat) (b : Bytes) (hs : c.sealed = true) :
     pushOut c b = c ∧ processChannelMessage c n (.send b) = (c, none) ∧
-    processChannelMessage c n (.connectionClose b) = (c, none) := by
+    processChannelMessage c n (.connectionClose b) = (c, none)
+
+counterexample: the state above with `sealed := true`: `out` stays [], but link 1's queue goes from
+one message to none, so the resulting state is not `c`. -/
+
+/-- SEALED ABSORBS: once sealed, nothing a client submits and nothing the I/O thread pushes is
+    appended any more (a close request still empties the channels' queues, but whatever it finds
+    there is not appended either, and writes stay sealed). -/
+theorem sealed_absorbs (c : Conn) (n : Nat) (b : Bytes) (hs : c.sealed = true) :
+    pushOut c b = c ∧ processChannelMessage c n (.send b) = (c, none) ∧
+    ((processChannelMessage c n (.connectionClose b)).1.out = c.out ∧
+      (processChannelMessage c n (.connectionClose b)).1.sealed = true) := by
   refine ⟨pushOut_of_sealed hs b, ?_, ?_⟩
-  · unfold processChannelMessage
+  · rw [processChannelMessage_send]
+    unfold processPlainMessage
     dsimp only
     rw [pushOut_of_sealed hs]
-  · unfold processChannelMessage
-    dsimp only
-    rw [sealOut_pushOut_of_sealed hs]
+  · obtain ⟨_, h2, _, h4, _⟩ := processChannelMessage_sealed hs n (.connectionClose b)
+    exact ⟨h4, h2⟩
 
 /-- NOTHING AFTER THE CLOSE POINT, over every continuation: from a sealed state, whatever happens
     next (any client operations, events, frames, transport behaviour, in any order and number) the
